@@ -14,7 +14,9 @@ Alpha == <<
   Recv_(1, 255, 3, 0, P57), Recv_(2, 255, 3, 0, P76),                       \* battery
   Recv_(1, 255, 3, 11, Pa), Recv_(1, 255, 3, 11, Pb), Recv_(1, 255, 3, 12, Pa), Recv_(2, 255, 3, 12, Pb),
   Recv_(1, 255, 3, 22, P1111), Recv_(1, 255, 3, 32, PEmpty),                \* heartbeat, pre-sleep
-  Recv_(255, 255, 3, 3, PEmpty)                                             \* id request
+  Recv_(255, 255, 3, 3, PEmpty),                                            \* id request
+  [Recv_(2, 255, 0, 17, P20) EXCEPT !.ack = 1], [Recv_(1, 0, 1, 0, Pb) EXCEPT !.ack = 1],
+  [Recv_(1, 0, 0, 6, Pb) EXCEPT !.ack = 1]                                   \* the same reports with the ack flag set
 >>
 Inits == << St(EmptyFn, "1.4", "1.4", TRUE), St(EmptyFn, "1.5", "1.5", TRUE), St(EmptyFn, "2.0", "2.0", TRUE),
             St(EmptyFn, "2.1", "2.1", TRUE), St(EmptyFn, "2.2", "2.2", TRUE) >>
